@@ -102,8 +102,9 @@ func TestVerifC08Ntor(t *testing.T) {
 		t.Fatalf("INFRA: %v", err)
 	}
 	c := ev.For("C08")
-	c.Rule("ntor: generated identity and ephemeral scalars (uniform, all-zero, all-ff, single bit; from KeypairFromHex and from NewKeypair with and without Elligator), node IDs, and peer public keys that are honest, arbitrary 32-byte strings, or one of the low-order u-coordinates in canonical and non-canonical form (u+p, bit 255 set); oracle: ServerHandshake and ClientHandshake equal the independent computation of the deployed ntor variant (KEY_SEED, AUTH, ok) using the math/big Montgomery ladder, honest pairs agree with each other, ok is false exactly when a Diffie-Hellman result is all-zero, flipping one generated bit of NODEID / B / X / Y changes both KEY_SEED and AUTH, CompareAuth is byte equality; non-trivial = a low-order or arbitrary peer key, or a mutated-transcript comparison; fingerprint = inputs")
+	c.Rule("ntor: generated identity and ephemeral scalars (uniform, all-zero, all-ff, single bit; from KeypairFromHex and from NewKeypair with and without Elligator, for the identity key as well as the ephemeral ones), node IDs, and peer public keys that are honest, arbitrary 32-byte strings, or one of the low-order u-coordinates in canonical and non-canonical form (u+p, bit 255 set); oracle: ServerHandshake and ClientHandshake equal the independent computation of the deployed ntor variant (KEY_SEED, AUTH, ok) using the math/big Montgomery ladder, honest pairs agree with each other, ok is false exactly when a Diffie-Hellman result is all-zero, flipping one generated bit of NODEID / B / X / Y changes both KEY_SEED and AUTH, CompareAuth is byte equality; non-trivial = a low-order or arbitrary peer key, or a mutated-transcript comparison; fingerprint = inputs")
 	c.Floor("degenerate-peer-key/ntor", 0.10)
+	c.Floor("identity-from-newkeypair-elligator/ntor", 0.10)
 	degenerate := vf08DegeneratePoints()
 	rapid.Check(t, func(rt *rapid.T) {
 		id := detrand.Bytes(rapid.Uint64().Draw(rt, "nodeID"), 20)
@@ -114,6 +115,19 @@ func TestVerifC08Ntor(t *testing.T) {
 		// identity and ephemeral keys
 		bPriv := vf08Scalar(rt, "b")
 		idKP := vf08Keypair(bPriv)
+		cls := []string{"ntor"}
+		// the identity key pair may itself come from NewKeypair, with or without a representative: its
+		// published public key is the B of the transcript (for a key with a representative that is not
+		// the plain x25519(b, 9))
+		switch rapid.IntRange(0, 3).Draw(rt, "idKeygen") {
+		case 0:
+			idKP, _ = NewKeypair(true)
+			bPriv = append([]byte(nil), idKP.Private().Bytes()[:]...)
+			cls = append(cls, "identity-from-newkeypair-elligator")
+		case 1:
+			idKP, _ = NewKeypair(false)
+			bPriv = append([]byte(nil), idKP.Private().Bytes()[:]...)
+		}
 		var xKP, yKP *Keypair
 		switch rapid.IntRange(0, 3).Draw(rt, "keygen") {
 		case 0:
@@ -126,7 +140,6 @@ func TestVerifC08Ntor(t *testing.T) {
 			xKP = vf08Keypair(vf08Scalar(rt, "x"))
 			yKP = vf08Keypair(vf08Scalar(rt, "y"))
 		}
-		cls := []string{"ntor"}
 		B := idKP.Public().Bytes()[:]
 		X := xKP.Public().Bytes()[:]
 		Y := yKP.Public().Bytes()[:]
